@@ -299,7 +299,14 @@ impl<F: Write + Seek> MiniAllocator<F> {
         // Add a new mini sector to the end of the mini stream and return it.
         let new_mini_sector = self.minifat.len() as u32;
         self.set_minifat(new_mini_sector, value)?;
-        self.append_mini_sector()?;
+        // The mini stream may already cover this mini sector: opening a file
+        // drops the trailing free entries from the in-memory MiniFAT, while
+        // the mini stream keeps its length.
+        let needed_len =
+            (new_mini_sector as u64 + 1) * consts::MINI_SECTOR_LEN as u64;
+        if needed_len > self.directory.root_dir_entry().stream_len {
+            self.append_mini_sector()?;
+        }
         Ok(new_mini_sector)
     }
 
